@@ -144,6 +144,10 @@ def check_classifier(ctx, clf, rs, n_feat, n_classes, gaussian, rep, tag):
         return
     if Sn.shape != (4, n_feat + 1) or np.any(np.isnan(Sn)):
         ctx.violation('c20-sample-count', f'sample(n=4) returned shape {Sn.shape} or left NaNs', replay=rep)
+        return
+    S0 = np.asarray(clf.sample(n=0))
+    if S0.shape != (0, n_feat + 1):
+        ctx.violation('c20-sample-count', f'sample(n=0) returned shape {S0.shape}, not (0, {n_feat + 1})', replay=rep)
 
 
 def mpe_label(leaf):
@@ -169,8 +173,16 @@ def check_estimator(ctx, rs, rep):
         ctx.violation('c20-estimator-mpe', 'estimator MPE differs from the wrapped circuit', replay=rep)
         return
     np.random.seed(int(rs.randint(2 ** 31 - 1)))
+    Q0 = Q.copy()
     s1 = np.asarray(est.sample(n=6))
     s2 = np.asarray(est.sample(X=Q))
+    if not np.array_equal(np.isnan(Q), np.isnan(Q0)) or not np.array_equal(Q[~np.isnan(Q0)], Q0[~np.isnan(Q0)]):
+        ctx.violation('c20-estimator-caller-array', 'estimator mpe / sample(X=...) modified the caller\'s query matrix (its missing entries were filled in)', replay=rep)
+        return
+    s0 = np.asarray(est.sample(n=0))
+    if s0.shape != (0, n_feat):
+        ctx.violation('c20-estimator-sample-count', f'estimator sample(n=0) returned shape {s0.shape}, not (0, {n_feat})', replay=rep)
+        return
     obs = ~np.isnan(Q)
     if s1.shape != (6, n_feat) or np.any(np.isnan(s1)) or s2.shape != Q.shape or np.any(np.isnan(s2)) or not np.array_equal(s2[obs], Q[obs]):
         ctx.violation('c20-estimator-sample', 'estimator sampling: wrong number of rows, unfilled entries or changed evidence', replay=rep)
